@@ -3,17 +3,20 @@
 Specification: spec/YCli.tla - per tool (yaml-get, yaml-set, yaml-merge, yaml-diff, yaml-validate,
 yaml-paths) the phase machine Args -> Validate -> (Load | Work)* -> Output -> Exit(code) as one pure step
 function; `Work` consumes an abstract library outcome, `Codes` is the exit-code table read off the
-main() functions, the delivery (file / stdin) is visible to the Load step alone.
+main() functions, the delivery (a named file / STDIN named by "-" / the waiting STDIN document no argument
+names, read where each main() tests isatty()) is visible to the Load step alone.
   * MC_YCli: TLC explores every run over the finite outcome space, checks the exit-code statements
     (get 0 <=> matched, diff 0 <=> same, validate 0 / 2 / 1, merge and set codes, paths) both on the state
     and on the events of the run, that a failing run delivers no result document, delivery independence
-    (the twin run with file and stdin exchanged ends in the same state), determinism and progress, and
-    emits the table (exit code per outcome class).  The deviating design "the status of the last source
-    wins" (MC_YCli_lastwins.cfg) must be refuted.
+    (every other way the tool offers to deliver the same documents - file, "-", implicit STDIN - ends in the
+    same state; every tool but yaml-diff reads a waiting STDIN document), determinism and progress, and
+    emits the table (exit code per outcome class).  Two deviating designs must be refuted: "the status of
+    the last source wins" (MC_YCli_lastwins.cfg) and yaml-merge before the repair of its STDIN-only run
+    (MC_YCli_stdinonly.cfg).
   * Binding S->C: the cases of the library-level models - MC_Query (C01) -> yaml-get and the unmatched
     yaml-set runs, MC_Edit (C03/C04/C09) -> yaml-set, MC_Merge (C05) -> yaml-merge and the document pairs of
     yaml-diff - are pushed through the REAL main() functions (harness/cliobs.py: in-process, patched argv /
-    stdin, captured stdout / stderr, SystemExit caught) with file AND stdin delivery, YAML and JSON input,
+    stdin, captured stdout / stderr, SystemExit caught) with all three deliveries, YAML and JSON input,
     both notations; yaml-validate gets valid documents, streams and a family of invalid texts, yaml-paths
     documents x expressions with the library's search_for_paths as the oracle.  A sample of the runs is
     repeated as real processes (/venv/bin/python -m yamlpath.commands.<tool>) and must agree with the
@@ -74,11 +77,24 @@ def _fmts(doc, rng, quick, seed):
     return [("yaml",) + rng.choice(allv), ("json",)]
 
 
-def _deliver(name, text, delivery, rng):
-    """-> (argv tail for the document, files, stdin).  delivery: file | stdin."""
+DELIVERIES = ("file", "dash", "implicit")
+
+
+def _deliver(name, text, delivery, rng=None):
+    """-> (argv tail for the document, files, stdin).
+
+    delivery: file (a named file) | dash (STDIN named by the "-" pseudo-file) | implicit (no YAML_FILE argument at
+    all and a non-TTY STDIN: the tool infers it)."""
     if delivery == "file":
         return [name], {name: text}, None
-    return (["-"] if rng.random() < 0.6 else []), {}, text
+    return (["-"] if delivery == "dash" else []), {}, text
+
+
+def _via(spec):
+    """How the (last) STDIN document of a run is delivered: file (none) | dash | implicit."""
+    if spec["stdin"] is None:
+        return "file"
+    return "dash" if any(a.strip() == "-" for a in spec["argv"]) else "implicit"
 
 
 def get_specs(corpus, rng, count, quick, seed):
@@ -88,7 +104,7 @@ def get_specs(corpus, rng, count, quick, seed):
         for c in cases:
             cls = "yperr" if c["err"] else ("matched" if c["n"] > 0 else "unmatched")
             groups.setdefault((c["ty"], cls, bool(c["info"])), []).append((doc, c))
-    ncases = max(1, count // (4 if quick else 6))
+    ncases = max(1, count // (6 if quick else 9))
     verdict = {k: v for k, v in groups.items() if not k[2]}
     inform = {k: v for k, v in groups.items() if k[2]}
     picked = _round_robin(verdict, rng, ncases - ncases // 8) + _round_robin(inform, rng, ncases // 8)
@@ -98,7 +114,7 @@ def get_specs(corpus, rng, count, quick, seed):
         info = bool(c["info"]) or cliobs.null_root(doc)
         for fmt in _fmts(doc, rng, quick, seed):
             suffix, text = _doc_text(doc, fmt)
-            for delivery in ("file", "stdin"):
+            for delivery in DELIVERIES:
                 for notation in ("dot", "sl"):
                     path = c[notation]
                     tail, files, stdin = _deliver("doc" + suffix, text, delivery, rng)
@@ -132,7 +148,7 @@ def rich_get_specs(rng):
     cases = [("", RICH_JSON), ("s", RICH_JSON["s"]), ("list", RICH_JSON["list"]), ("h", RICH_JSON["h"])]
     cases += [(p, v) for p, v in RICH_LINES.items()]
     for path, want in cases:
-        for delivery in ("file", "stdin"):
+        for delivery in DELIVERIES:
             for notation in ("dot", "sl"):
                 ptxt = path if notation == "dot" else "/" + path.replace(".", "/")
                 tail, files, stdin = _deliver("rich.yaml", RICH, delivery, rng)
@@ -147,11 +163,11 @@ def unreadable_specs(rng, quick):
     """An input that does not load: every tool must fail with its load status and deliver nothing."""
     specs = []
     texts = [t for _, t in INVALID if _really(False, t)]
-    if quick:
-        texts = rng.sample(texts, 6)
+    if quick:       # always the duplicate-key class (alone and in a later document of a stream), plus some others
+        texts = ["a: 1\nb: 2\na: 3\n", "---\na: 1\n...\n---\nk: 1\nk: 2\n"] + rng.sample([t for t in texts if "k: 1\nk: 2" not in t and t != "a: 1\nb: 2\na: 3\n"], 4)
     good = "---\na: 1\nb: [1, 2]\n"
     for text in texts:
-        for delivery in ("file", "stdin"):
+        for delivery in DELIVERIES:
             tail, files, stdin = _deliver("bad.yaml", text, delivery, rng)
             specs.append({"tool": "get", "argv": ["--query=a"] + tail, "files": files, "stdin": stdin, "o": o_of(), "exp": {"k": "", "n": 0},
                           "info": False, "cls": "unreadable", "delivery": delivery, "want": {"cls": "unreadable"}})
@@ -165,16 +181,27 @@ def unreadable_specs(rng, quick):
                 stdin = None
                 if delivery == "file":
                     files["bad.yaml"] = text
-                else:
+                    names = ["--nostdin"] + names
+                elif delivery == "dash":
                     stdin = text
                     names[names.index("bad.yaml")] = "-"
-                specs.append({"tool": "merge", "argv": ["--nostdin"] + names, "files": dict(files), "stdin": stdin, "o": o_of(),
+                elif first:                       # the waiting STDIN document is the only (left-hand) one
+                    stdin, names, files = text, [], {}
+                else:                             # ... or the last one, after the named file
+                    stdin, names = text, ["good.yaml"]
+                specs.append({"tool": "merge", "argv": names, "files": dict(files), "stdin": stdin, "o": o_of(),
                               "exp": {"k": "", "n": 0}, "info": False, "cls": "unreadable:%s" % ("first" if first else "later"),
-                              "delivery": "ff" if delivery == "file" else ("-f" if first else "f-"), "output": None, "docfmt": "auto",
+                              "delivery": delivery, "output": None, "docfmt": "auto",
                               "want": {"out": None, "code": 4 if first else 3}})
-                specs.append({"tool": "diff", "argv": names, "files": dict(files), "stdin": stdin, "o": o_of(), "exp": {"k": "", "n": 0},
-                              "info": False, "cls": "unreadable", "delivery": "ff" if delivery == "file" else ("-f" if first else "f-"),
-                              "want": {"code": 1}})
+                if delivery != "implicit":        # yaml-diff does not infer STDIN
+                    specs.append({"tool": "diff", "argv": [n for n in names if n != "--nostdin"], "files": dict(files), "stdin": stdin,
+                                  "o": o_of(), "exp": {"k": "", "n": 0}, "info": False, "cls": "unreadable", "delivery": delivery,
+                                  "want": {"code": 1}})
+            if delivery == "implicit":            # a named readable file, then an unreadable waiting document
+                for tool, code in (("validate", 2), ("paths", 3)):
+                    specs.append({"tool": tool, "argv": (["--search==1"] if tool == "paths" else []) + ["good.yaml"],
+                                  "files": {"good.yaml": good}, "stdin": text, "o": o_of(), "exp": {"k": "", "n": 0}, "info": False,
+                                  "cls": "unreadable:waiting", "delivery": delivery, "want": {"code": code, "inputs": [[True, "good"], [False, "waiting"]]}})
             tail, files, stdin = _deliver("bad.yaml", text, delivery, rng)
             specs.append({"tool": "paths", "argv": ["--nostdin", "--search==1"] + tail if delivery == "file" else ["--search==1"] + tail,
                           "files": files, "stdin": stdin, "o": o_of(), "exp": {"k": "", "n": 0}, "info": False, "cls": "unreadable",
@@ -222,13 +249,13 @@ def set_specs(hists, corpus, rng, count, quick, seed):
     for rec in hists:
         st = rec["hist"][0]
         groups.setdefault((st["op"], st["out"], rec["doc0"][0]["k"]), []).append(rec)
-    n_model = max(1, int(count * 0.7) // (4 if quick else 8))
+    n_model = max(1, int(count * 0.7) // (6 if quick else 12))
     for rec in _round_robin(groups, rng, n_model):
         st = rec["hist"][0]
         doc0 = rec["doc0"]
         for fmt in _fmts(doc0, rng, quick, seed):
             suffix, text = _doc_text(doc0, fmt)
-            for delivery in ("file", "stdin"):
+            for delivery in DELIVERIES:
                 for notation in ("dot", "sl"):
                     tail, files, stdin = _deliver("doc" + suffix, text, delivery, rng)
                     final, value, info = rec["final"], None, False
@@ -254,11 +281,11 @@ def set_specs(hists, corpus, rng, count, quick, seed):
         for c in cases:
             if not c["info"] and (c["err"] or c["n"] == 0):
                 groups.setdefault((c["ty"], bool(c["err"])), []).append((doc, c))
-    for doc, c in _round_robin(groups, rng, max(1, (count - len(specs)) // 4)):
+    for doc, c in _round_robin(groups, rng, max(1, (count - len(specs)) // 6)):
         fmt = _fmts(doc, rng, True, seed)[0]
         suffix, text = _doc_text(doc, fmt)
         for op in ("set_must", "delete"):
-            for delivery in ("file", "stdin"):
+            for delivery in DELIVERIES:
                 tail, files, stdin = _deliver("doc" + suffix, text, delivery, rng)
                 st = {"op": op, "v": "zz"}
                 specs.append({
@@ -270,7 +297,7 @@ def set_specs(hists, corpus, rng, count, quick, seed):
     for rec in rng.sample(hists, min(len(hists), 12 if quick else 120)):
         doc0 = rec["doc0"]
         suffix, text = _doc_text(doc0, ("yaml", "block", False))
-        for delivery in ("file", "stdin"):
+        for delivery in DELIVERIES:
             tail, files, stdin = _deliver("doc" + suffix, text, delivery, rng)
             specs.append({
                 "tool": "set", "argv": ["--change=/", "--delete"] + tail, "files": files, "stdin": stdin, "o": o_of(must=True),
@@ -362,6 +389,21 @@ def merge_specs(recs, rng, count, quick, seed):
                 "delivery": delivery, "output": output, "docfmt": docfmt,
                 "want": {"out": res["out"] if res["ok"] else None, "l": rec["l"], "r": rec["r"], "cfg": cfgname},
             })
+    # a single document delivered each way; the third - no YAML_FILE at all - makes the waiting STDIN document the
+    # left-hand (and only) one.  The document passes through.
+    from harness import cliobs as _cl
+    for rec in rng.sample(recs, min(len(recs), 50 if quick else 1500)):
+        l = rec["l"]
+        suffix, text = _doc_text(l, _fmts(l, rng, True, seed)[0])
+        for delivery in DELIVERIES:
+            tail, files, stdin = _deliver("lhs" + suffix, text, delivery)
+            docfmt = rng.choice(["auto", "yaml", "json"])
+            argv = (["--nostdin"] if delivery == "file" else []) + (["--document-format=" + docfmt] if docfmt != "auto" else [])
+            specs.append({
+                "tool": "merge", "argv": argv + tail, "files": files, "stdin": stdin, "o": o_of(), "exp": {"k": "", "n": 0},
+                "info": _cl.null_root(l), "cls": "single:%s" % l[0]["k"], "delivery": delivery, "output": None, "docfmt": docfmt,
+                "want": {"out": l, "l": l, "r": None, "cfg": ""},
+            })
     # error codes of the other multi-document modes (single documents each)
     bad = [rec for rec in recs if not rec["group"]["res"]["ok"] and not rec["group"]["res"]["info"]]
     for rec in rng.sample(bad, min(len(bad), 10 if quick else 100)):
@@ -399,7 +441,7 @@ def merge_specs(recs, rng, count, quick, seed):
     return specs
 
 
-DIFF_OPTS = ([], [], ["--same"], ["-s"], ["--onlysame"], ["-o"], ["--quiet"], ["--pathsep=/"], ["-t", "."], ["-s", "-t/"])
+DIFF_OPTS = ([], [], ["--same"], ["-s"], ["--onlysame"], ["-o"], ["--quiet"], ["-q"], ["-q", "-t/"], ["--pathsep=/"], ["-t", "."], ["-s", "-t/"])
 
 
 def diff_specs(recs, rng, count, quick, seed):
@@ -433,7 +475,7 @@ def diff_specs(recs, rng, count, quick, seed):
             elif delivery == "-f":
                 stdin = files.pop("lhs" + ls)
                 names[0] = "-"
-            quiet = "--quiet" in opts
+            quiet = "--quiet" in opts or "-q" in opts
             equal = absdoc.plain_data(l) == absdoc.plain_data(r)
             specs.append({
                 "tool": "diff", "argv": opts + names, "files": files, "stdin": stdin,
@@ -522,7 +564,7 @@ def validate_specs(corpus, rng, count, quick, seed):
             which = rng.choice(["two-stdin", "nothing"])
             specs.append({"tool": "validate", "argv": argv + (["-", "-"] if which == "two-stdin" else ["--nostdin"]), "files": {},
                           "stdin": "a: 1\n" if which == "two-stdin" else None, "o": o_of(noise=noise), "exp": {"k": "", "n": 0}, "info": False,
-                          "cls": "args:" + which, "delivery": "stdin", "want": {"code": 1, "inputs": []}})
+                          "cls": "args:" + which, "delivery": "dash", "want": {"code": 1, "inputs": []}})
             continue
         k = rng.choice([1, 1, 2, 2, 3])
         inputs = []
@@ -548,17 +590,17 @@ def validate_specs(corpus, rng, count, quick, seed):
             j = rng.choice(candidates)
             stdin = files.pop(names[j])
             names[j] = "-"
-            delivery = "stdin"
+            delivery = "dash"
         elif mode == "implicit" and k == 1 and candidates:
             stdin = files.pop(names[0])
             names = []
-            delivery = "stdin"
+            delivery = "implicit"
         elif mode == "extra":        # a waiting STDIN document besides the files: validated when the files were fine
             ok, kind, text = (False,) + rng.choice(invalid2) if rng.random() < 0.5 else (True,) + rng.choice(valid2)
             if all(i[0] for i in inputs):
                 inputs.append([ok, kind + "(waiting-stdin)", text])
             stdin = text
-            delivery = "stdin"
+            delivery = "waiting"
         else:
             argv = argv + (["--nostdin"] if rng.random() < 0.5 else [])
         allok = all(i[0] for i in inputs)
@@ -604,13 +646,18 @@ def paths_specs(corpus, hists, rng, count, quick, seed):
             argv.append(rng.choice(["--nofile", "-F"]))
         if len(exprs) > 1 and rng.random() < 0.5:
             argv.append(rng.choice(["--noexpression", "-X"]))
-        delivery = rng.choice(["file", "stdin", "two"])
+        delivery = rng.choice(["file", "dash", "implicit", "two", "waiting"])
         inputs = [("doc" + suffix, text, d)]
         files, names, stdin = {"doc" + suffix: text}, ["doc" + suffix], None
-        if delivery == "stdin":
+        if delivery in ("dash", "implicit"):
             stdin = files.pop("doc" + suffix)
-            names = ["-"] if rng.random() < 0.6 else []
+            names = ["-"] if delivery == "dash" else []
             inputs = [("-", text, d)]
+        elif delivery == "waiting":          # a named file, then the waiting STDIN document no argument names
+            d2 = uniq[(i * 11) % len(uniq)]
+            s2, t2 = _doc_text(d2, _fmts(d2, rng, True, seed)[0])
+            stdin = t2
+            inputs.append(("-", t2, d2))
         elif delivery == "two":
             d2 = uniq[(i * 7) % len(uniq)]
             s2, t2 = _doc_text(d2, _fmts(d2, rng, True, seed)[0])
@@ -627,7 +674,7 @@ def paths_specs(corpus, hists, rng, count, quick, seed):
             argv.append("--nostdin")
         specs.append({"tool": "paths", "argv": argv + names, "files": files, "stdin": stdin, "o": o_of(),
                       "exp": {"k": "", "n": 0}, "info": False, "cls": "search:" + "+".join(sorted(set(o.lstrip("-")[:1] for o in opts)) or ["default"]),
-                      "delivery": "stdin" if stdin is not None else "file",
+                      "delivery": delivery,
                       "want": {"inputs": [[n, t] for n, t, _ in inputs], "exprs": exprs, "excepts": excepts, "opts": opts,
                                "nofile": any(a in ("--nofile", "-F") for a in argv), "noexpr": any(a in ("--noexpression", "-X") for a in argv)}})
     # unusable expression / unreadable source
@@ -1042,9 +1089,10 @@ def _tlc_table(ctx):
         table.setdefault(key, set()).add(row["code"])
     os.remove(f)
     # the theorems are not vacuous: the design "the status of the last source wins" must be refuted
-    d = core.run_tlc(ctx, "MC_YCli", "MC_YCli_lastwins.cfg", env={"CASES_OUT": ctx.path("unused.cases")}, workers=2, timeout=600)
-    if d["violated"] != "InvRunHonest":
-        raise core.MachineryError("the deviating design MC_YCli_lastwins.cfg was not refuted by InvRunHonest (%s; see %s)" % (d["violated"], d["log"]))
+    for cfg, inv in (("MC_YCli_lastwins.cfg", "InvRunHonest"), ("MC_YCli_stdinonly.cfg", "InvDeliveryIndependent")):
+        d = core.run_tlc(ctx, "MC_YCli", cfg, env={"CASES_OUT": ctx.path("unused.cases")}, workers=2, timeout=600)
+        if d["violated"] != inv:
+            raise core.MachineryError("the deviating design %s was not refuted by %s (%s; see %s)" % (cfg, inv, d["violated"], d["log"]))
     return table, r
 
 
@@ -1179,7 +1227,7 @@ def run(ctx):
     _SCRATCH[0] = ctx.path("runs")
     os.makedirs(_SCRATCH[0], exist_ok=True)
     rs = random.Random(ctx.seed + 77)
-    stats = {t: {"runs": 0, "info": 0, "info_mismatch": 0, "nonzero": 0, "stdin": 0, "json": 0, "crash": 0} for t in TOOLS}
+    stats = {t: {"runs": 0, "info": 0, "info_mismatch": 0, "nonzero": 0, "stdin": 0, "implicit": 0, "json": 0, "crash": 0} for t in TOOLS}
     tot = {"records": 0, "sub": 0, "boundary": 0, "rejected": 0, "want": 0, "uncovered": 0, "dropped": 0}
     outcome_classes = set()
     accepted = []                 # a few accepted records per batch, for the self-test
@@ -1221,9 +1269,10 @@ def run(ctx):
                 st["runs"] += 1
                 st["nonzero"] += r["code"] != 0
                 st["stdin"] += s["stdin"] is not None
+                st["implicit"] += _via(s) == "implicit"
                 st["json"] += any(n.endswith(".json") for n in s["files"])
                 st["crash"] += isinstance(r["status"], str)
-                outcome_classes.add((s["tool"], s["cls"], s["delivery"], r["code"]))
+                outcome_classes.add((s["tool"], s["cls"], _via(s), r["code"]))
                 if s["info"]:
                     st["info"] += 1
                     st["info_mismatch"] += bool(r["problems"])
@@ -1287,13 +1336,14 @@ def run(ctx):
     ctx.coverage.update({
         "evaluations": tot["records"], "distinct_nontrivial": len(outcome_classes),
         "rule": "one evaluation = one run of a real main() (in-process, or as a real process for the sample); runs per tool = model cases "
-                "(MC_Query / MC_Edit / MC_Merge) x delivery (file, stdin) x notation / input format / output options; non-trivial = distinct "
+                "(MC_Query / MC_Edit / MC_Merge) x delivery (file, '-', implicit STDIN) x notation / input format / output options; non-trivial = distinct "
                 "(tool, input class, delivery, exit status) combinations observed",
         "per_tool": stats, "subprocess_runs": tot["sub"], "boundary_mismatches": tot["boundary"],
         "traces_validated_against_impl": tot["records"], "traces_rejected": tot["rejected"],
         "model_outcome_vs_exit_mismatches": tot["want"],
         "outcome_classes_outside_emitted_table": tot["uncovered"], "table_rows": sum(len(v) for v in table.values()),
-        "deviating_designs_refuted": ["last-source-wins (Sticky = FALSE) violates InvRunHonest"],
+        "deviating_designs_refuted": ["last-source-wins (Sticky = FALSE) violates InvRunHonest",
+                                      "yaml-merge before the STDIN-only repair (StdinOnlyMerge = FALSE) violates InvDeliveryIndependent"],
         "binding_selftest": {"corrupted_records": len(corrupt), "rejected": len(corrupt) - len(missed),
                              "fields": ["exit code", "stdout lines / result document", "delivery", "library outcome", "missing phase"]},
         "model_drift": sum(st["info_mismatch"] for st in stats.values()),
